@@ -82,6 +82,7 @@ def explore(ctx):
             failures.append({"class": None, "witness": True,
                              "text": f"a transmitted element is a function of the hidden claim values alone: {h['path']} is the same for two independently issued credentials over the same claims and differs for other claims ({s['suite']}); candidate values can be tested against it", "case": s})
     failures += C.proof_params_pin()
+    failures += C.domain_generator_pin()
     return {
         "evaluations": n_tests,
         "distinct_nontrivial": len(distinct),
